@@ -2,6 +2,7 @@
 import vlib
 from scale_common import ScaleSpec
 from tree_common import TreeSpec
+from c01 import conc_puts
 
 SPECS = {"scale": (ScaleSpec(['tree', 'tree-gc']), "harness", "runner"), "tree": (TreeSpec("c03"), "harness", "runner")}
 
@@ -20,6 +21,9 @@ def run(ctx):
         vlib.seq_differential(ctx, ScaleSpec(['tree', 'tree-gc']), exeS, proofs_ok, tag="scale")
     else:
         ctx.violation("harness-build", "the harness does not build against the current tree: " + outS[-1500:], {"build_output": outS[-4000:]}, failing_input=False)
+    # "the reported Len equals the number of stored keys" also when several goroutines overwrite present keys (documented
+    # as safe): the scenario of C01's last sentence, under the race detector
+    conc_puts(ctx)
     vlib.merge_parts(ctx, "cases = (order mode: compare natural/reversed/coarse, less natural/coarse; Map or Set) x prefill (ascending, descending, sawtooth, random to 0..260 keys, node-capacity boundaries) "
                      "x random Put/Delete/Get/Contains/Len/First/Last/Range/RangeReverse with all 9 bound-kind pairs; compared with the B-tree model (exact), the sorted-list spec and an independent ideal map; "
                      "distinct = hash of ops; non-trivial = >= 8 ops")
